@@ -345,10 +345,27 @@ class EnvScenario(StateScenario):
                 # a (sub)configuration replaced by a loaded map is rebuilt from its defaults (= environment again)
                 for repl in replaced_paths(st.sd, base, tree):
                     st.assigned = {p for p in st.assigned if not p.startswith(repl + ".")}
-                # loaded, unbound fields are assigned by the load
+                # loaded, unbound fields are assigned by the load: a field whose variable is unset or empty (or that
+                # opted out) behaves as if no binding existed, i.e. the document's value is applied
+                snode0 = st.sd["root"] if not base else schema.sub_schema_node(st.sd, schema.node_at(st.sd, base))
+                slots = {p_: (n_, c_[k_]) for p_, n_, c_, k_ in ops.tree_leaf_slots(st.sd, snode0, tree, base + "." if base else "")}
                 for p in touched:
                     if p not in st.bound:
                         st.assigned.add(p)
+                        n_, raw = slots.get(p, (None, None))
+                        if n_ is None or schema.is_cfg_node(n_) or not ops.loadable(n_):
+                            continue
+                        exp = ops.expect_loaded(n_, raw, st.ctx)
+                        if isinstance(exp, OK):
+                            rec.check()
+                            got = safe_resolve(cfg, p)
+                            if not ops.matches(exp.v, got):
+                                name = st.names.get(p)
+                                rec.fail("C14/unbound", "C14/load-ignored-for-field-without-effective-variable/%s"
+                                         % ("empty" if name and st.env.get(name) == "" else "unset" if name else "no-binding"),
+                                         "field %s (variable %r=%r) was in the loaded document with %r but holds %r"
+                                         % (p, name, st.env.get(name) if name else None, raw, canon(got) if not isinstance(got, Exception) else got))
+                            rec.probe("load-applied:" + ("empty-variable" if name_of(st, p) == "" else "no-variable"))
                 # an explicitly assigned, bound field that the document also names: the document never overrides
                 # a field whose variable is set, so the assignment stays
                 for p, was in keep.items():
@@ -375,6 +392,11 @@ class EnvScenario(StateScenario):
             return
         rec.relevant += 1
         self.check_env(st, cfg, rec, k)
+
+
+def name_of(st, p):
+    name = st.names.get(p)
+    return st.env.get(name) if name else None
 
 
 def safe_resolve(cfg, path):
